@@ -178,6 +178,12 @@ func (s *service) GetChunkHashes(ctx context.Context, addr boson.Address, pyrami
 		bmtWriter := bmt.NewBmtWriter(&noopChainWriter{})
 		for hash, data := range pyramid {
 			var ref boson.Address
+			// the BMT hasher silently ignores everything beyond its capacity,
+			// so an oversized entry would still hash to its key.
+			if len(data) > boson.ChunkSize+boson.SpanSize {
+				err = ErrInvalidPyramid
+				return
+			}
 			args := pipeline.PipeWriteArgs{Data: data}
 			err = bmtWriter.ChainWrite(&args)
 			if err != nil {
